@@ -165,6 +165,14 @@ func (e *C11) Run(c *core.Ctx, idx int) {
 			parts.Preview = append([]byte{0xFF, 0xD8}, r.Bytes(r.Range(0, 9000))...)
 			parts.PrvwW, parts.PrvwH = uint16(r.Intn(65536)), uint16(r.Intn(65536))
 		}
+		if parts.Preview != nil && r.Chance(1, 4) {
+			// the size field inside the PRVW payload is data: the box's own size frames the payload
+			parts.PrvwSizeDelta = r.Pick(1, 64, 5000, -1, -40)
+			if -parts.PrvwSizeDelta > len(parts.Preview) {
+				parts.PrvwSizeDelta = -len(parts.Preview)
+			}
+			parts.PrvwTail = r.Bool()
+		}
 		parts.TopNoise = r.Pick(0, 0, 1, 2)
 		if r.Chance(1, 4) {
 			parts.Align = 1 + r.Intn(41) // a nested header close to a 4 KiB boundary of the stream
@@ -400,8 +408,8 @@ func (e *C11) Run(c *core.Ctx, idx int) {
 		if heif || malformed {
 			return cbErr()
 		}
-		if int(h.Size) != len(parts.Preview) || h.Width != parts.PrvwW || h.Height != parts.PrvwH {
-			viol("bmff:prvw-header", fmt.Sprintf("preview header %+v, file has size %d w %d h %d", h, len(parts.Preview), parts.PrvwW, parts.PrvwH))
+		if int(h.Size) != len(parts.Preview)+parts.PrvwSizeDelta || h.Width != parts.PrvwW || h.Height != parts.PrvwH {
+			viol("bmff:prvw-header", fmt.Sprintf("preview header %+v, file has size field %d w %d h %d", h, len(parts.Preview)+parts.PrvwSizeDelta, parts.PrvwW, parts.PrvwH))
 		}
 		if full {
 			if !sameBytes(got, parts.Preview) {
@@ -466,7 +474,7 @@ func (e *C11) Run(c *core.Ctx, idx int) {
 		}
 		// through the top-level helpers (they call ReadMetadata a fixed number of times, so only
 		// files whose boxes come in the canonical order qualify)
-		if parts.TopNoise == 0 && !parts.CanonTop && parts.XMP != nil && parts.Preview != nil {
+		if parts.TopNoise == 0 && !parts.CanonTop && parts.PrvwSizeDelta == 0 && parts.XMP != nil && parts.Preview != nil {
 			imagemeta.VerifResetState()
 			pv, perr := imagemeta.PreviewCR3(mon.NewRS(data))
 			c.Rec.Eval(1)
